@@ -62,7 +62,7 @@ struct Case {
 };
 
 struct Tol {   // bounds in units of eps*max(m,n) (+ truncated part); calibrated, see notes/C24.md
-    double backward = 200, normalEq = 500, minNorm = 2000, inverse = 500, recon = 300, ortho = 300, svals = 300,
+    double backward = 2000, normalEq = 2000, minNorm = 2000, inverse = 500, recon = 2000, ortho = 500, svals = 2000,
            eigRes = 2000, eigTrace = 500, eigDet = 2000, eigReal = 500, eigSigmin = 2000, rcondRatio = 1000, weak = 2000;
     double band = 100;   // ambiguity band around rcond for the reference rank
 };
@@ -407,7 +407,7 @@ template <class T> static void checkEigen(Ctx<T>& C, const Matrix_<T>& M) {
     }
     C.exp(nonzero, "Eigen.vectors/zero-eigenvector");
     // real element types: LapackInterface::geev decides "eigenvalue is real" by |imag| < 1e-6 (absolute)
-    C.res("Eigen.vectors.Av=lv", w, TOL.eigRes, smallImag ? std::string("real-type-with-0<|imag(lambda)|<1e-6") : C.tname);
+    C.res(smallImag ? "Eigen.vectors.Av=lv.real-type-with-0<|imag(lambda)|<1e-6" : "Eigen.vectors.Av=lv", w, TOL.eigRes, smallImag ? std::string("all-real-types") : C.tname);
     CL tr(0, 0), sum(0, 0), prod(1, 0);
     for (int i = 0; i < n; ++i) { tr += c.A(i, i); sum += L(i, 0); prod *= L(i, 0); }
     C.res("Eigen.vectors.trace", std::abs(sum - tr) / (sc * C.epsU * n), TOL.eigTrace);
@@ -669,8 +669,8 @@ template <class T> static void extremeScale(verif::Run& run, int a, int sa, int 
         if (C.exp(!threw, "QTZ.solve-throws/" + cls)) {
             // separate oracle names so that the scaling branches get their own keys
             RankInfo r2 = ri; DMat X = refOf(Xm);
-            std::string where = sb != 0 ? "rhs-outside-safe-range" : sa != 0 ? "matrix-outside-safe-range" : "in-range";
-            std::string call = "solve.extreme";
+            std::string where = sa != 0 ? "matrix-outside-safe-range" : "in-range";
+            std::string call = sb != 0 ? "solve.extreme-rhs-outside-safe-range" : "solve.extreme";
             checkLS(C, "QTZ", r2, B, X, call, where);
         }
     }
